@@ -32,7 +32,7 @@ STUBS = [
 FLOAT_MODE = "R-mode exact reals / integers"
 BOUNDS = {"quick": dict(noise_param_subsets="all 1- and 2-subsets of 9 numeric parameters", device_shapes=8),
           "thorough": dict(noise_param_subsets="same + 3-subsets", device_shapes=12)}
-OUTSIDE = ["Results and QuTiP-backed State / Operator classes (EmulationConfig is covered at representation level with StateRepr)", "the uK <-> K temperature conversion of SimConfig (float round-off)",
+OUTSIDE = ["QuTiP-backed State / Operator classes and Results holding them (Results with numeric values are covered; EmulationConfig at representation level with StateRepr)", "the uK <-> K temperature conversion of SimConfig (float round-off)",
            "aliasing is decided by identity checks and mutation, not by the solver"]
 
 
@@ -499,8 +499,46 @@ def h_config(shape):
     return h
 
 
+def h_results(shape):
+    """Results round trip: every stored value and time of every observable instance comes back (symbolic values and times;
+    two instances may share a tag, the later one then owns the tag but the earlier one's data is still stored)."""
+
+    def h(inp):
+        jsonfacade.reset()
+        import uuid
+
+        from pulser.backend.results import Results
+
+        r = Results(atom_order=("q0", "q1"), total_duration=inp.int("total_duration", 1, 10**6))
+        uu = [uuid.UUID(int=i + 1) for i in range(shape["n_obs"])]
+        tags = shape["tags"]
+        for i, (u, tag) in enumerate(zip(uu, tags)):
+            t_prev = 0.0
+            for j in range(shape["n_times"]):
+                t = inp.real("t%d_%d" % (i, j), 0, 1)
+                inp.assume(t > t_prev)
+                t_prev = t
+                r._store_raw(uuid=u, tag=tag, time=t, value=inp.real("v%d_%d" % (i, j), -10, 10))
+        try:
+            r2 = Results.from_abstract_repr(r.to_abstract_repr())
+        except Exception:  # noqa: BLE001
+            return [("k4:results_roundtrip_completes", False)]
+        obs = [("k4:results_header", r2.atom_order == r.atom_order and l2.snap_equal(r2.total_duration, r.total_duration)),
+               ("k4:results_tagmap", r2._tagmap == r._tagmap),
+               ("k4:results_same_instances", set(r2._results) == set(r._results) and set(r2._times) == set(r._times))]
+        for u in uu:
+            obs.append(("k4:results_values", l2.snap_equal(r._results.get(u), r2._results.get(u))))
+            obs.append(("k4:results_times", l2.snap_equal(r._times.get(u), r2._times.get(u))))
+        return obs
+
+    return h
+
+
 def kernels(tier):
     ks = _k17(tier)
+    ks.append(("results", dict(n_obs=1, tags=["energy"], n_times=2)))
+    ks.append(("results", dict(n_obs=2, tags=["energy", "occupation"], n_times=2)))
+    ks.append(("results", dict(n_obs=3, tags=["energy", "occupation", "energy"], n_times=1)))
     ks.append(("config", dict(obs=["bitstrings"], times=[True])))
     ks.append(("config", dict(obs=["bitstrings", "occupation"], times=[False, True], default_times="sym", suffix=True)))
     ks.append(("config", dict(obs=["correlation", "energy", "variance"], times=[True, False, False], default_times="full", mod=True)))
@@ -514,4 +552,6 @@ def kernels(tier):
 def harness(kernel, shape):
     if kernel == "config":
         return h_config(shape)
+    if kernel == "results":
+        return h_results(shape)
     return _h17(kernel, shape)
